@@ -21,4 +21,8 @@ VARIANTS = [
         dict(file=D, old="        subgraph = molecule.subgraph(mol_idxs)\n", new="        subgraph = molecule.subgraph([idx for idx in mol_idxs if out_to_mol[out_idx][idx]])\n")]),
     dict(name='benign-rename-loop-var', expect='silent', edits=[
         dict(file=A, old="                subnode['position']\n                for subnode in node['graph'].nodes().values()\n                if subnode.get('position') is not None\n", new="                sub['position']\n                for sub in node['graph'].nodes().values()\n                if sub.get('position') is not None\n")]),
+    dict(name='rebuilt atoms inherit the position of a one-atom residue (original defect F27)', expect='fire', key='PROV-no-coordinates|rebuilt-atom-no-coordinates', edits=[
+        dict(file='vermouth/processors/repair_graph.py', old="                               'nedges', 'density', 'position'):", new="                               'nedges', 'density'):")]),
+    dict(name='benign rebuilt atom built by a comprehension over the inherited keys', expect='silent', edits=[
+        dict(file='vermouth/processors/repair_graph.py', old="            node = {}\n            for key, val in ref_residue.items():", new="            node = dict()\n            for key, val in ref_residue.items():")]),
 ]
